@@ -57,15 +57,15 @@ class Check:
 
     # ---- replay + trace validation part --------------------------------------------------
     def traces(self, cases, checks, tag="t", nontrivial=None, timeout_ms=10000, flavor="plain", spec=("FlowTrace.tla", "FlowTrace.cfg"),
-               nproc=None):
+               nproc=None, diag=True, sample_events=("Update", "Q"), build=None, env=None):
         cases = list(cases)
         if not cases:
             return
-        exe = vlib.build_harness(flavor)
+        exe = vlib.build_harness(flavor, **(build or {}))
         t0 = time.time()
-        traces, case_files = vlib.run_cases(exe, cases, self.workdir, nproc=nproc or vlib.NCPU, timeout_ms=timeout_ms, tag=tag)
+        traces, case_files = vlib.run_cases(exe, cases, self.workdir, nproc=nproc or vlib.NCPU, timeout_ms=timeout_ms, tag=tag, env=env)
         t1 = time.time()
-        lines, failures = vlib.validate(traces, checks, module=spec[0], cfg=spec[1])
+        lines, failures = vlib.validate(traces, checks, module=spec[0], cfg=spec[1], diag=diag)
         t2 = time.time()
         log("[trace] %s: %d cases, %d lines, run %.1fs, validate %.1fs, %d failing conjuncts"
             % (tag, len(cases), lines, t1 - t0, t2 - t1, len(failures)))
@@ -81,7 +81,7 @@ class Check:
         try:
             with open(traces[0]) as f:
                 for ln in f:
-                    if ln.startswith('{"e":"Update"') or ln.startswith('{"e":"Q'):
+                    if any(ln.startswith('{"e":"%s' % se) for se in sample_events):
                         self.ev.sample(json.loads(ln) if len(ln) < 1500 else ln[:1500] + "...")
                         break
         except (OSError, ValueError):
